@@ -227,6 +227,17 @@ theorem closed_loop_ideal_reaches_warning_partial (q c W : ℚ) (hq : 0 < q) (hc
   have := hpos n (le_refl n)
   linarith
 
+/-- **The allowance never decreases while demand stays saturating (idealised loop) — PARTIAL as above**: while tokens remain above
+the warning line each second drains a positive amount, so the next second's allowance is at least this second's -/
+theorem closed_loop_ideal_allowance_monotone_partial (q c W : ℚ) (hq : 0 < q) (hc : 1 < c) (hW : 0 < W)
+    (f : ℕ → ℚ) (hstep : ∀ k, 0 < f k → f (k + 1) = f k - allowQ q c W (f k)) (k : ℕ) (hk : 0 < f k) (hk1 : 0 ≤ f (k + 1)) :
+    f (k + 1) ≤ f k ∧ allowQ q c W (f k) ≤ allowQ q c W (f (k + 1)) := by
+  have hc1 : 0 < c - 1 := by linarith
+  have hden : 0 < f k * ((c - 1) / q / W) + 1 / q := by positivity
+  have hpos : 0 < allowQ q c W (f k) := by unfold allowQ; positivity
+  have hle : f (k + 1) ≤ f k := by rw [hstep k hk]; linarith
+  exact ⟨hle, by unfold allowQ; exact allowedQ_antitone q c W (f (k + 1)) (f k) hq hc hW hk1 hle⟩
+
 /-- with the exact bucket geometry `W = 2·p·q/(c+1)` the bound is `2·p` seconds -/
 theorem closed_loop_ideal_within_two_periods_partial (q c : ℚ) (p : ℕ) (hq : 0 < q) (hc : 1 < c) (hp : 0 < p)
     (f : ℕ → ℚ) (h0 : f 0 ≤ 2 * p * q / (c + 1))
